@@ -83,6 +83,10 @@ CHECKS = {
             "Enumerated and generated fault sequences on a private copy of Rules/ (deleted, empty, truncated at a byte or at an entry, wrong top-level type, invalid xpath, unknown key, wrong-type value or entry, invalid UTF-8, directory in place of the file, missing rules directory): no call panics; the first error a caller gets for a failing load names the faulted file; after the repair (bytes restored with a newer time stamp and CheckRuleFiles=All, or set_rules_dir to the pristine or the same directory) set_mathml, speech, overview, braille, two navigation moves and navigation braille equal a fresh session on the pristine rules.",
             "Level fault_enumeration for the enumerated part (reported separately in the evidence: stream 'explicit'); the rest is exploration. Match-time failures (a rule or variable missing from a well-formed but shortened or fall-back file) and 'MathML has not been set' after a failed set_mathml are not load errors and need not name the file. Time stamps are set explicitly and strictly increasing. A fault that stays invisible is a trivial case.",
             "DESIGN.md 3/C14"),
+    "C15": ("exhaustive enumeration of the shipped configurations (languages/regions x styles x verbosities, braille codes, fall-back configurations) crossed with a corpus harvested from the repository's tests plus property-based generation of textbook expressions; differential against an English reference session and against the base language for fall-backs",
+            "Every language/region x speech style x verbosity and every braille code found under Rules/ at run time, plus unknown-region and unknown-language configurations, is selected and run over a seed-selected spread of the 1715 <math> literals of the repository's tests (all of them in the thorough tier) and over generated expressions: selecting the configuration, set_mathml, speech, overview, braille, a navigation walk and navigation braille must all succeed, speech must be non-empty for expressions with letters or digits, and a fall-back configuration must give exactly the outputs of its base language.",
+            "Enumeration of configurations is exhaustive, the corpus is a sample. Errors are keyed by (language or code, error class); a class English shows on the same expression (or on the canonical form the configuration produced) is keyed any-configuration; the two classes raised by the navigation engine for nodes without speech of their own are keyed navigation-engine for all languages (known findings). Fall-back equality is not asserted on numbers with separators (separators are chosen from the language code by design).",
+            "DESIGN.md 3/C15"),
 }
 
 NOT_YET = "check not built yet in this round (machinery in progress; see DESIGN.md section 7 build order)"
